@@ -8,12 +8,24 @@
   coefficient fields: reading the vector, writing it back and iterating the tunable parameters all
   address the same coefficient at the same index."
 
-  Part (b), the parameter vector (this section), is proved in full for the reflection walkers of
+  Part (a) — PARTIAL (see `int_vs_exact_partial` / `C19a_full` at the end of the file): float64 and
+  `math.Exp` cannot be reasoned about in core Lean.  What is proved: for EXACT RATIONAL arithmetic with
+  an abstract sigmoid `σ` that is within 1/2 of the integer table (`TableNear σ`, discharged
+  numerically by the tunereval harness for the real float64 sigmoid over the whole int16 range), and
+  for every position on which no int16 conversion that matters changes a value (`noInt16Wrap`,
+  decidable; measured true on every generated position), the tuner's evaluation differs from the
+  engine's integer evaluation by at most 4799/2400 = 1 + 2399/2400 < 2 < 2.25 centipawns, with the
+  white-relative sign.  The float64 rounding residue (measured ≈ 1e-12 cp) is outside the theorem.
+
+  Part (b), the parameter vector, is proved in full for the reflection walkers of
   tools/tuner/tuning/vector.go as modelled in Model/TunerVector.lean, for EVERY struct value without
   zero-length arrays — in particular (`coeffRep`) for every value of the REGENERATED shape of
   `eval.CoeffSet` — and EVERY list of target names (any subset, any order, duplicates, unknown names).
 -/
 import ChessVerif.Proofs.TunerVector
+import ChessVerif.Proofs.TunerVectorWrite
+import ChessVerif.Proofs.EvalEnvelope
+import ChessVerif.Model.Abs
 
 namespace ChessVerif.Props.C19
 open ChessVerif ChessVerif.TunerVector
@@ -88,6 +100,15 @@ theorem tunedParams_index (e : Rep α) (targets : List String) (i : Nat)
     simp only [tunedCells_getCell]
   simpa [tunedParams] using h1
 
+/-- Writing through the `i`-th yielded pointer (`*ptr = v`, as the client's finite-difference loop does)
+    changes exactly entry `i` of what `ToVector(targets)` reads — nothing else. -/
+theorem tunedParams_write (e : Rep α) (targets : List String) (v : α) (i : Nat)
+    (hi : i < (tunedParams e targets).length) :
+    toVector (setCell e ((tunedParams e targets)[i]).2 v) targets = (toVector e targets).set i v := by
+  have hc : i < (tunedCells e targets).length := by simpa [tunedParams] using hi
+  have := tunedCells_setCell e targets v i hc
+  simpa [tunedParams] using this
+
 /-! ### non-vacuity -/
 
 /-- the shipped coefficient set, the tuner's default targets: 981 cells, all 981 selected, the round
@@ -100,7 +121,97 @@ example : (tunedParams shippedRep ["KingShelter", "TempoBonus"]).map (·.2) = [(
 example : toVector shippedRep ["KingShelter", "TempoBonus"] = [19, 18, 7, -12] := by decide +kernel
 /-- a struct with a zero-length array is outside the theorems' hypothesis, and indeed `SetVector`
     panics on its own `ToVector` there (Go: "array length mismatch 0 != 2" for a `[2][0]float64`). -/
-example : setVector [("X", Tree.node [.node [], .node []])] (toVector [("X", (Tree.node [.node [], .node []] : Tree Int))] ["X"]) ["X"]
-    = none := by decide
+example : setVector [("X", (TunerVector.Tree.node [.node [], .node []] : TunerVector.Tree Int))]
+    (toVector [("X", (TunerVector.Tree.node [.node [], .node []] : TunerVector.Tree Int))] ["X"]) ["X"] = none := by decide
+
+/-! ### (a) float evaluation vs integer evaluation — exact-arithmetic part -/
+
+section partA
+open ChessVerif.Eval
+
+/-- the engine's shipped coefficients converted as `tuning.EngineCoeffs()` converts them are the
+    model's `shippedQ`. -/
+theorem engineCoeffs_shipped : shippedQ = toQ shipped := shippedQ_eq
+
+/-- Under `noInt16Wrap` the engine's wrapping int16 evaluation is the evaluation in exact integers
+    (table sigmoid, truncating taper). -/
+theorem evalInt_exact (cs : CoeffSet Int) (b : Board) (hw : noInt16Wrap cs (input b) = true) :
+    evalInt cs b = evalCore opsZ cs (input b) :=
+  evalInt_eq_evalZ cs (input b) hw
+
+/-- C19 (a), exact-arithmetic part: for every integer coefficient set `cs` (converted to rationals as
+    `EngineCoeffs` does), every sigmoid within 1/2 of the table and every position without a relevant
+    int16 wrap, the tuner's white-relative evaluation is within 4799/2400 of the engine's. -/
+theorem int_vs_exact_partial (σ : Rat → Rat) (hσ : TableNear σ) (cs : CoeffSet Int) (b : Board)
+    (hw : noInt16Wrap cs (input b) = true) :
+    -(4799 / 2400 : Rat) ≤ tunerEvalQ σ (toQ cs) b - ((tunerEvalInt cs b : Int) : Rat) ∧
+    tunerEvalQ σ (toQ cs) b - ((tunerEvalInt cs b : Int) : Rat) ≤ 4799 / 2400 := by
+  obtain ⟨h1, h2⟩ := evalQ_vs_evalZ σ hσ cs (input b) hw
+  rw [← evalInt_eq_evalZ cs (input b) hw] at h1 h2
+  unfold tunerEvalQ tunerEvalInt evalQ evalInt
+  by_cases hs : b.stm = .black
+  · simp only [hs, if_true]
+    rw [Rat.intCast_neg]
+    constructor
+    · have : -evalCore (opsQ σ) (toQ cs) (input b) - -((evalCore opsI16 cs (input b) : Int) : Rat) =
+          -(evalCore (opsQ σ) (toQ cs) (input b) - ((evalCore opsI16 cs (input b) : Int) : Rat)) := by
+        rw [Rat.neg_sub, Rat.sub_eq_add_neg, Rat.neg_neg, Rat.add_comm, ← Rat.sub_eq_add_neg]
+      rw [this]; exact Rat.neg_le_neg h2
+    · have : -evalCore (opsQ σ) (toQ cs) (input b) - -((evalCore opsI16 cs (input b) : Int) : Rat) =
+          -(evalCore (opsQ σ) (toQ cs) (input b) - ((evalCore opsI16 cs (input b) : Int) : Rat)) := by
+        rw [Rat.neg_sub, Rat.sub_eq_add_neg, Rat.neg_neg, Rat.add_comm, ← Rat.sub_eq_add_neg]
+      rw [this]
+      have := Rat.neg_le_neg h1
+      rwa [Rat.neg_neg] at this
+  · simp only [hs, if_false]
+    exact ⟨h1, h2⟩
+
+/-- the same for the shipped coefficients, as the tuner runs them. -/
+theorem int_vs_exact_shipped_partial (σ : Rat → Rat) (hσ : TableNear σ) (b : Board)
+    (hw : noInt16Wrap shipped (input b) = true) :
+    -(4799 / 2400 : Rat) ≤ tunerEvalQ σ shippedQ b - ((tunerEvalInt shipped b : Int) : Rat) ∧
+    tunerEvalQ σ shippedQ b - ((tunerEvalInt shipped b : Int) : Rat) ≤ 4799 / 2400 := by
+  rw [shippedQ_eq]; exact int_vs_exact_partial σ hσ shipped b hw
+
+/-- the envelope is below the 2.25 of the property text (and below 2). -/
+example : (4799 / 2400 : Rat) < 2 ∧ (2 : Rat) < 9 / 4 := by norm_num
+
+/-- The full exact-arithmetic statement: every valid position, shipped coefficients.  NOT proved:
+    it needs `∀ valid b, noInt16Wrap shipped (input b)` (a magnitude bound on the evaluation of every
+    valid position — measured true on every generated position by the harness), and the step from exact
+    rationals with `TableNear σ` to IEEE-754 float64 with `math.Exp` is not expressible in core Lean at all. -/
+def C19a_full : Prop :=
+  ∀ σ : Rat → Rat, TableNear σ → ∀ b : Board, Board.valid b = true →
+    -(9 / 4 : Rat) < tunerEvalQ σ shippedQ b - ((tunerEvalInt shipped b : Int) : Rat) ∧
+    tunerEvalQ σ shippedQ b - ((tunerEvalInt shipped b : Int) : Rat) < 9 / 4
+
+/-- what is missing for `C19a_full`, exactly. -/
+theorem c19a_full_of_noWrap (h : ∀ b : Board, Board.valid b = true → noInt16Wrap shipped (input b) = true) :
+    C19a_full := by
+  intro σ hσ b hb
+  obtain ⟨h1, h2⟩ := int_vs_exact_shipped_partial σ hσ b (h b hb)
+  exact ⟨lt_of_lt_of_le (by norm_num) h1, lt_of_le_of_lt h2 (by norm_num)⟩
+
+/-! non-vacuity of (a) -/
+
+/-- the table itself, read as a step function, satisfies `TableNear` -/
+example : TableNear (fun q => ((sigmTable q.floor : Int) : Rat)) := by
+  intro n _ _
+  simp only [Rat.floor_intCast, sub_self]
+  norm_num
+
+open Color Piece in
+/-- `8/8/8/4k3/8/2B5/1N6/K7 b - - 3 1`: knight + bishop v bare king. -/
+def knbBoard : Board :=
+  let men : List (Nat × Color × Piece) := [(0, white, king), (9, white, knight), (18, white, bishop), (36, black, king)]
+  let b := men.foldl (fun b x => (Board.addPiece Board.zeroKeys b x.2.1 x.2.2 x.1).1) Board.empty
+  { b with stm := .black, fullMoves := 1, fifty := 3 }
+
+/-- the hypothesis `noInt16Wrap` holds there with the shipped coefficients (kernel-checked); for
+    positions on the tapered path it is evaluated by the compiled driver and reported by the harness
+    (the kernel cannot afford the magic-bitboard tables inside `decide`). -/
+example : noInt16Wrap shipped (input knbBoard) = true := by decide +kernel
+
+end partA
 
 end ChessVerif.Props.C19
